@@ -62,6 +62,7 @@ class Writer(object):
         self.tags = tags if tags is not None else set()
         self.tm = {}
         self.subst = {}          # id(sub-blueprint) -> text (let-bound names in scope)
+        self.int_numeral_rationals = False   # write some rationals as (/ m n) although numerals are of sort Int
 
     def pct(self, p):
         return self.var and self.rnd.randrange(100) < p
@@ -113,6 +114,9 @@ class Writer(object):
                 elif self.real_numerals and self.pct(40):
                     s = "(/ %d %d)" % (a.numerator, a.denominator)
                     self.tags.add("rational-of-numerals")
+                elif self.int_numeral_rationals and not self.real_numerals and self.pct(35):
+                    s = "(/ %d %d)" % (a.numerator, a.denominator)
+                    self.tags.add("rational-of-int-numerals")
                 else:
                     s = "(/ %d.0 %d.0)" % (a.numerator, a.denominator)
                     self.tags.add("rational")
